@@ -52,6 +52,10 @@ class Recording:
         return self.fn(*args, **kwargs)
 
 
+def call_recording(rec: Recording, step: int) -> Any:
+    return rec(step)
+
+
 def build(name: str, spec: dict[str, Any], ext: Any = None) -> Any:
     """Value to pass to the preconditioner constructor."""
     if 'c' in spec:
